@@ -64,6 +64,14 @@ CLAIMS = {
    "Decides the structural clauses of the merge: by abstract interpretation CopyItemProperties returns an error without reaching any merge function for nil/typed-nil operands, for ids forced different and for type names forced different, and the dispatcher refuses unsupported types; every store to.f in the merge functions is fed from from.f of the same f, is not on the unset side of a test of from.f, and replace-if helpers return the old value only where the new one is unset (struct helpers must not replace wholesale on a cross-comparison); each merged property listed in the statement has such a store; nothing is written through from. NOT decided: the 2^n set/unset combinations on concrete values.",
    "Trusted: go/ssa, prov.go, the abstract interpreter.",
    "abstract interpretation of refusal paths + field-assignment pairing and guard polarity (SSA)", "3/C18"),
+ "C09": ("other",
+   "Decides the structural clauses of item equality: every property of the object core other than media type and source (and actor/target/result/origin/instrument, object for activities) is compared between the two operands in the closure of the Equals methods; by abstract interpretation, forcing the id-equivalence test or the case-insensitive type test to fail makes Object.Equals constantly false and forcing Object.Equals false makes every other object type's Equals constantly false; ItemsEqual on two non-nil values of the same concrete type is never constantly false for any of the 14 types (a constantly-false dispatch breaks reflexivity for the whole type), nil-like operands are decided by C20; list equalities do not have the all-pairs loop shape. NOT decided: reflexivity/symmetry over all values (lists with id-less members), termination of the swap recursion.",
+   "Trusted: go/ssa, prov.go, the abstract interpreter.",
+   "field-comparison coverage on SSA + abstract interpretation with forced comparison results", "3/C09"),
+ "C19": ("other",
+   "Decides the structural clauses of the language-value containers: LangRefValue.Equals compares tag and text of both operands and is false when either differs (abstract interpretation with the comparison forced false); the list equality decides through it and does not have the all-pairs loop shape; Get returns a text only under 'entry tag == requested tag'; Set overwrites in place only under that test and appends only on the not-found side; Count is the receiver's length; First returns the front element. NOT decided: operation histories, equality for lists with repeated tags.",
+   "Trusted: go/ssa, prov.go.",
+   "guard-dominance and loop-shape rules on SSA", "3/C19"),
 }
 
 NOT_YET = "check not yet built in this round (planned, see DESIGN.md section 3); not claimed until it runs clean"
